@@ -55,7 +55,7 @@ def recover_convs(rng, n, prefix, binary_choices=(True,), endings=None):
     gives the row up and finishes, reports an error to the client, or drops the writer.  The refused call
     must have left nothing behind (C03/C07/C13)."""
     out = []
-    endings = endings or ["retry", "retry", "finish", "finish_error", "finish_one", "drop", "end_row", "retry_twice"]
+    endings = endings or ["retry", "retry", "finish", "finish_error", "finish_one", "drop", "end_row", "retry_twice", "endrow_retry"]
     for i in range(n):
         binary = binary_choices[i % len(binary_choices)]
         ncol = [1, 2, 3, 5, 9][i % 5]
@@ -96,6 +96,13 @@ def recover_convs(rng, n, prefix, binary_choices=(True,), endings=None):
         elif ending == "drop":
             ops.append(op_drop())
         elif ending == "end_row":
+            ops += [op_end_row(), op_finish()]
+        elif ending == "endrow_retry":
+            # the row is one cell short when end_row is called; the shim handles the refusal, supplies the
+            # missing cells and ends the row again
+            ops.append(cont(op_end_row()))
+            for j in range(at, ncol):
+                ops.append(op_write_col(_good(rng, cols[j])))
             ops += [op_end_row(), op_finish()]
         c = Conv("%s-%03d" % (prefix, i), mode=["lockstep", "pipelined"][i % 2], meta={"ending": ending, "at": at, "binary": binary})
         if binary:
